@@ -9,7 +9,7 @@ RULE = ("UBI = inv(U.B(cell)) for 7 cell families, right- and left-handed, optio
         "and |d_i| < 0.5 at noise levels 1e-6..0.45 x tol in (0,0.5] x label arrays x degenerate selections (empty, "
         "all l=0, collinear, <3 peaks); oracle = float64 numpy reference written from the statement with an "
         "interval rule at the tolerance boundary; non-trivial = peaks on both sides of the tolerance, or n>4096, or "
-        "a singular selection; distinct = hash of the case")
+        "a singular selection; the library's Python routes (indexing.refine, calc_drlv2, indexer.score/refine on ring-assigned peaks, refinegrains.refine) are compared with the same reference; distinct = hash of the case")
 ASSUMPTIONS = ["a peak whose squared error lies within its rounding uncertainty u=4e-13(1+|h|)(sqrt(e)+1e-13(1+|h|)) of "
                "tol^2 may be counted either way; least-squares results are compared only when no such peak exists",
                "fit tolerance |UBI_c.UB_ref - I| < 1e-9*cond(H) + 1e-11",
@@ -181,6 +181,61 @@ def check(case, rec=None):
                 if r3[0] != npk or np.abs(u3 - u2).max() > 1e-9 * cond * np.abs(u2).max():
                     fails.append(fail("order", "score_and_refine depends on the order of the peaks; %s" % where,
                                       fn="score_and_refine"))
+    # ---- library Python routes: indexer.score / indexer.refine (ring-assigned peaks only) and refinegrains.refine
+    if n <= 400 and namb == 0:
+        rngr = np.random.RandomState((case["seed"] + 11) % (2 ** 32))
+        ra = np.where(rngr.random_sample(n) < 0.7, 0, -1).astype(np.int32)
+        ok, ix = guard(indexing.indexer, gv=gv, hkl_tol=tol)
+        if ok:
+            ix.ra = ra
+            ok, sc = guard(ix.score, ubi)
+            if ok and sc != nin:
+                fails.append(fail("count", "indexer.score = %s, reference %d; %s" % (sc, nin, where), fn="indexer.score"))
+            sel = sure & (ra > -1)
+            if sel.any():
+                refm, UBr, condr, singr = lsq(gv, hi, sel)
+                ok, ur = guard(ix.refine, ubi.copy())
+                if ok and not singr and condr < 1e6:
+                    good, err = fit_close(np.asarray(ur, float), UBr, condr)
+                    if not good:
+                        fails.append(fail("fit", "indexer.refine differs from the least squares solution over the "
+                                          "ring-assigned indexed peaks: %.3g (cond %.3g); %s" % (err, condr, where),
+                                          fn="indexer.refine"))
+                    else:
+                        e2, _, s2, a2, _ = reference(np.ascontiguousarray(refm), gv, tol)
+                        lo2, hi2 = int((s2 & (ra > -1)).sum()), int(((s2 | a2) & (ra > -1)).sum())
+                        if not lo2 <= ix.scorelastrefined <= hi2:
+                            fails.append(fail("count", "indexer.refine scorelastrefined = %s, reference %d..%d; %s" %
+                                              (ix.scorelastrefined, lo2, hi2, where), fn="indexer.refine"))
+                elif not ok and not (isinstance(ur, ValueError) and "No contributing" in str(ur)):
+                    fails.append(exc_failure("indexer.refine", ur))
+        else:
+            fails.append(exc_failure("indexer()", ix))
+        if nin > 0 and singular is False:
+            from ImageD11 import refinegrains
+            import io, contextlib
+            with contextlib.redirect_stdout(io.StringIO()):
+                ok, rg = guard(refinegrains.refinegrains, tolerance=tol, OmFloat=False)
+            if ok:
+                rg.gv = gv
+                ok, m2 = guard(rg.refine, ubi.copy())
+                if ok:
+                    # two passes: the second selects with the matrix fitted in the first
+                    r1, UB1, c1, sg1 = lsq(gv, hi, sure)
+                    if not sg1 and c1 < 1e6:
+                        e1, h1, s1, a1, half1 = reference(np.ascontiguousarray(r1), gv, tol)
+                        if not a1.any() and s1.any():
+                            r2, UB2, c2, sg2 = lsq(gv, h1, s1)
+                            if not sg2 and c2 < 1e6:
+                                good, err = fit_close(np.asarray(m2, float), UB2, c2)
+                                if not good:
+                                    fails.append(fail("fit", "refinegrains.refine differs from two least squares passes: "
+                                                      "%.3g (cond %.3g); %s" % (err, c2, where), fn="refinegrains.refine"))
+                                if rg.npks != int(s1.sum()):
+                                    fails.append(fail("count", "refinegrains.refine npks = %s, reference %d; %s" %
+                                                      (rg.npks, int(s1.sum()), where), fn="refinegrains.refine"))
+                else:
+                    fails.append(exc_failure("refinegrains.refine", m2))
     # ---- refine_assigned for every label (selection by label only)
     for lab in range(0, case["nlabel"] + 2):
         sel = labels == lab
